@@ -2507,3 +2507,20 @@ package goatlang
 //@   ensures#lookup as(v.value, *structT).Lookup == old(as(v.value, *structT).Lookup) && haskey(as(v.value, *structT).Lookup, key) && as(v.value, *structT).Lookup[key] == idx
 //@   ensures#lookupothers forall k2 string :: k2 != key ==> haskey(as(v.value, *structT).Lookup, k2) == old(haskey(as(v.value, *structT).Lookup, k2)) && as(v.value, *structT).Lookup[k2] == old(as(v.value, *structT).Lookup[k2])
 //@   ensures#shared as(v.value, *structT).Methods == old(as(v.value, *structT).Methods) && as(v.value, *structT).TypeN == old(as(v.value, *structT).TypeN)
+//@   ensures#arrays (arr(as(v.value, *structT).Order) == old(arr(as(v.value, *structT).Order)) || isfresh(arr(as(v.value, *structT).Order))) && (arr(as(v.value, *structT).Fields.pairs) == old(arr(as(v.value, *structT).Fields.pairs)) || isfresh(arr(as(v.value, *structT).Fields.pairs)))
+//@
+//@ func (Value).syncFields
+//@   property C12 C17 C07
+//@   requires is(v.value, *structT) && wfS(as(v.value, *structT)) && is(b.value, *structT) && wfS(as(b.value, *structT)) && as(v.value, *structT) != as(b.value, *structT) && as(v.value, *structT).Lookup != as(b.value, *structT).Lookup
+//@   requires arr(as(v.value, *structT).Fields.pairs) != arr(as(b.value, *structT).Fields.pairs) && arr(as(v.value, *structT).Order) != arr(as(b.value, *structT).Order)
+//@   modifies fields(as(v.value, *structT)) elems(as(v.value, *structT).Fields.pairs) elems(as(v.value, *structT).Order) M$Str$Int$dom M$Str$Int$val M$Str$Int$card
+//@   allocates elems(intMapPair) elems(string)
+//@   nopanic
+//@   ensures#wf wfS(as(v.value, *structT)) && as(v.value, *structT).Methods == old(as(v.value, *structT).Methods) && as(v.value, *structT).Lookup == old(as(v.value, *structT).Lookup)
+//@   ensures#kept forall k2 int :: trig(k2) && old(has(as(v.value, *structT).Fields, k2)) ==> has(as(v.value, *structT).Fields, k2)
+//@ func (Value).syncFields loop 0
+//@   invariant#wf wfS(as(v.value, *structT)) && as(v.value, *structT).Methods == old(as(v.value, *structT).Methods) && as(v.value, *structT).Lookup == old(as(v.value, *structT).Lookup) && cur == as(b.value, *structT) && is(v.value, *structT)
+//@   invariant#cur *cur == old(*as(b.value, *structT)) && same(elemsAt(intMapPair, arr(cur.Fields.pairs)), old(elemsAt(intMapPair, arr(as(b.value, *structT).Fields.pairs))))
+//@   invariant#sep arr(as(v.value, *structT).Fields.pairs) != arr(cur.Fields.pairs) && arr(as(v.value, *structT).Order) != arr(cur.Order) && !isfresh(arr(cur.Fields.pairs)) && !isfresh(arr(cur.Order))
+//@   invariant#own (arr(as(v.value, *structT).Order) == old(arr(as(v.value, *structT).Order)) || isfresh(arr(as(v.value, *structT).Order))) && (arr(as(v.value, *structT).Fields.pairs) == old(arr(as(v.value, *structT).Fields.pairs)) || isfresh(arr(as(v.value, *structT).Fields.pairs)))
+//@   invariant#kept forall k2 int :: trig(k2) && old(has(as(v.value, *structT).Fields, k2)) ==> has(as(v.value, *structT).Fields, k2)
